@@ -140,9 +140,17 @@ class FindContract(object):
 class ConvLoop(S.LoopContract):
     """`converted` grows by exactly one element per node (its content is checked element-wise in the body)"""
 
+    def __init__(self, temps=()):
+        self.extra_temps = tuple(temps)  # every other local the body assigns (read off the loop's AST): scratch values
+
     def inv(self, I):
         I.temps("node")
         acc = I.a("converted")
+        for t in self.extra_temps:
+            if t != acc:
+                I.covered.add(t)
+                if I.mode == "abstract":
+                    I.st.env.pop(t, None)
         I.covered.add(acc)
         I.bound(acc)
         eng, st = I.eng, I.st
@@ -170,6 +178,9 @@ def conv_spec(eng, st, obj, nd):
     new, inn = FA(nd, z3.StringVal("NewFieldName")), FA(nd, z3.StringVal("InFieldName"))
     want_rn = z3.If(eng.dyn_truthy(rn), rn, z3.If(eng.dyn_truthy(new), new, inn))
     out.append(("result name = own name, else NewFieldName, else InFieldName", eng.to_dyn(st, f["result_name"]) == want_rn))
+    # a result name is a name: the loader keys its table with it (C13: nothing but SyntaxError / MPilotError may escape from loading)
+    rnv = eng.to_dyn(st, f["result_name"])
+    out.append(("the result name handed to the loader is text (or absent)", z3.Or(Val.is_S(rnv), Val.is_N(rnv))))
     table = eng.cv["table"]
     cmd = FLD("command")(nd)
     mapped = cmd
@@ -288,7 +299,8 @@ def verify_converter(repo, table):
     functions.append(ci.describe())
     eng.current = ci
     eng.contracts = {FIND: FindContract()}
-    eng.loop_contracts[(ci.key, "for", 0)] = ConvLoop()
+    _loops0 = [n for n in ast.walk(ci.node) if isinstance(n, ast.For)]
+    eng.loop_contracts[(ci.key, "for", 0)] = ConvLoop(eng.loop_names(_loops0[0])[1] if _loops0 else ())
     st = State()
     st.add_cell("c")
     st.kterms.append(z3.IntVal(0))
